@@ -1,6 +1,7 @@
 # C08 - answers are invariant under rigid motions of world plus query
 import copy
 import math
+import os
 import random
 
 import common
@@ -8,6 +9,7 @@ from cases import CaseSet
 from qgen import line_query, inside_query, query3d, query2d, offsets
 from worlds import any_world
 from wbgen import PI, cart_point
+from common import fhex
 from qgen import TOP
 
 PROPS = [[1, 0, 0], [2, 0, 0], [2, 1, 0], [2, 2, 0], [2, 3, 0], [3, 0, 1], [4, 0, 0]]
@@ -240,6 +242,34 @@ def run(chk):
         dsc["moved_probe_line"] = cs.probe[i2]
         dsc["answer"], dsc["moved_answer"] = x, y
         viol.append(("the answer changes under a rigid motion of world plus query (%s)" % (motion,), dsc))
+    # an exception on one side only: is it raised at that exact point alone?  (a point exactly on a polygon corner or edge of a
+    # feature with depths given at points: whether the corner belongs to a triangle of the surface is decided by rounding;
+    # a centimetre away the moved world answers like the unmoved one)
+    import json as _json
+    keep = []
+    for what, d in viol:
+        if (d["answer"] is None) == (d["moved_answer"] is None):
+            keep.append((what, d))
+            continue
+        thrower_is_moved = d["moved_answer"] is None
+        wj_t = d["moved_world"] if thrower_is_moved else d["world"]
+        pl = (d["moved_probe_line"] if thrower_is_moved else d["probe_line"]).split()
+        other = d["answer"] if thrower_is_moved else d["moved_answer"]
+        if pl[0] != "p3":
+            keep.append((what, d))
+            continue
+        px, py, pz, pd = (common.unhex(t) for t in pl[2:6])
+        wp = os.path.join(cs.dir, "throwcheck.wb")
+        _json.dump(wj_t, open(wp, "w"))
+        lines = ["world 0 %s 1" % wp]
+        for ex, ey in ((0.01, 0.0), (-0.01, 0.0), (0.0, 0.01), (0.0, -0.01), (0.007, 0.007), (-0.007, -0.007)):
+            lines.append("p3 0 %s %s %s %s %s" % (fhex(px + ex), fhex(py + ey), fhex(pz), fhex(pd), " ".join(pl[6:])))
+        ans = [common.parse_vec(a) for a in common.run_probe(lines)[1:]]
+        if any(a is not None and close(a, other, 1e-4, 1e-3) for a in ans):
+            chk.count("boundary-ambiguous (an exception at one exact boundary point only)")
+            continue
+        keep.append((what, d))
+    viol = keep
     # known finding D21: the spherical closest-point search on the trench curve does not find the foot of a point whose
     # longitude in (-pi,pi] is a full turn away from the longitudes the trench is written with (bezier_curve.cc, spherical
     # branch: linear start estimate and clamp are not periodic).  Identified at the call site: the moved trench, probed
